@@ -330,6 +330,9 @@ func (s *SimRegistry) RoundTrip(req *http.Request) (*http.Response, error) {
 		return nil, errors.New("simregistry: connection reset by peer (injected, request not applied)")
 	case "status-500":
 		sr = simResp{status: 500, header: http.Header{}, body: errBody("UNKNOWN", "injected")}
+	case "status-429":
+		// throttled: the request is not applied, the answer says nothing about the endpoint
+		sr = simResp{status: 429, header: http.Header{}, body: errBody("TOOMANYREQUESTS", "injected")}
 	default:
 		sr = s.route(req, reqBody, &rec)
 	}
@@ -339,8 +342,8 @@ func (s *SimRegistry) RoundTrip(req *http.Request) (*http.Response, error) {
 		s.reqs = append(s.reqs, rec)
 		simrt.Note("http %d %s %s -> %d fault=%s", n, req.Method, req.URL.RequestURI(), sr.status, fault)
 	}
-	if fault == "status-500" {
-		resp := &http.Response{StatusCode: 500, Status: "500 Internal Server Error", Header: sr.header, Request: req, Proto: "HTTP/1.1", ProtoMajor: 1, ProtoMinor: 1,
+	if fault == "status-500" || fault == "status-429" {
+		resp := &http.Response{StatusCode: sr.status, Status: fmt.Sprintf("%d %s", sr.status, http.StatusText(sr.status)), Header: sr.header, Request: req, Proto: "HTTP/1.1", ProtoMajor: 1, ProtoMinor: 1,
 			Body: io.NopCloser(bytes.NewReader(sr.body)), ContentLength: int64(len(sr.body))}
 		return resp, nil
 	}
